@@ -77,7 +77,7 @@ impl Server {
             let message = Server::_ERROR_REQUEST_TARGET_IS_NOT_IN_ORIGIN_FORM.to_string();
             eprintln!("unable to serve request: {}", &message);
 
-            let raw_response = Server::not_origin_form_response(message, request);
+            let raw_response = Server::bad_request_response_for_request(message, request);
             let boxed_stream = stream.write_all(raw_response.borrow());
             if boxed_stream.is_ok() {
                 let boxed_flush = stream.flush();
@@ -107,7 +107,7 @@ impl Server {
 
     // 400 for a parsed request: generated for the request itself, so that HEAD and OPTIONS
     // get no body and the CORS headers match the request
-    fn not_origin_form_response(message: String, request: Request) -> Vec<u8> {
+    fn bad_request_response_for_request(message: String, request: Request) -> Vec<u8> {
         let content_range = Range::get_content_range(
             Vec::from(message.as_bytes()),
             MimeType::TEXT_PLAIN.to_string()
@@ -213,7 +213,7 @@ impl Server {
         if !request.request_uri.starts_with(SYMBOL.slash) {
             let message = Server::_ERROR_REQUEST_TARGET_IS_NOT_IN_ORIGIN_FORM.to_string();
 
-            let raw_response = Server::not_origin_form_response(message.clone(), request);
+            let raw_response = Server::bad_request_response_for_request(message.clone(), request);
             let boxed_stream = stream.write_all(raw_response.borrow());
             if boxed_stream.is_ok() {
                 let boxed_flush = stream.flush();
@@ -232,7 +232,7 @@ impl Server {
         let app_processing = app.execute(&request, &connection);
         if app_processing.is_err() {
             let message = app_processing.as_ref().err().unwrap().to_string();
-            let response = Server::bad_request_response(message);
+            let response = Server::bad_request_response_for_request(message, request);
 
             let boxed_stream = stream.write_all(response.borrow());
             if boxed_stream.is_ok() {
